@@ -151,7 +151,15 @@ func (p *GleecePipeline) GenerateIntermediate() (GleeceFlattenedMetadata, error)
 }
 
 func (p *GleecePipeline) getReducedControllers() ([]definitions.ControllerMetadata, error) {
-	controllers, err := p.reduceControllers(p.getControllers())
+	// Reduction hands out import serials on a first-come basis - reduce in a stable order rather than in graph (map) order
+	controllerMetas := p.getControllers()
+	slices.SortFunc(controllerMetas, func(a, b metadata.ControllerMeta) int {
+		if byName := strings.Compare(a.Struct.Name, b.Struct.Name); byName != 0 {
+			return byName
+		}
+		return strings.Compare(a.Struct.PkgPath, b.Struct.PkgPath)
+	})
+	controllers, err := p.reduceControllers(controllerMetas)
 	if err != nil {
 		logger.Error("Failed to reduce controller tree to flat form: %w", err)
 		return []definitions.ControllerMetadata{}, err
